@@ -133,6 +133,22 @@ Theorem C11_unset_idempotent_single : forall d q ps v up fs now d1 ch1,
 Proof. exact (apply_unset_idempotent_single _). Qed.
 Print Assumptions C11_unset_idempotent_single.
 
+(* without "plain" and "pairwise disjoint" the statement is false of the faithful
+   model: a.$[] next to a.1 (resolved paths do not conflict, the array grows),
+   and conflicting paths whose first invocation is a no-op (never recorded) *)
+Theorem C11_idempotence_refuted :
+  ~ idempotent_for stub_match u_positional_and_index /\ ~ idempotent_for stub_match u_conflict_after_noop.
+Proof. exact (idempotence_refuted _). Qed.
+Print Assumptions C11_idempotence_refuted.
+
+(* a '$' inside a path segment makes the update hit another field *)
+Theorem C11_dollar_inside_segment_refuted :
+  Apply [("a", VArr [VDoc [("c", VInt32 1)]]); ("k", VInt32 0)] []
+        [("$mul", VDoc [("ab$[].c", VInt32 2)])] false [] 0 =
+  Ok ([("a", VArr [VDoc [("c", VInt32 2)]]); ("k", VInt32 0)], [("a.0.c", VInt32 2)]).
+Proof. exact (dollar_inside_segment_refuted _). Qed.
+Print Assumptions C11_dollar_inside_segment_refuted.
+
 (* an update whose result is identical to the input is not counted modified *)
 Theorem C11_noop_reports_unchanged : forall d q u up fs now d' ch,
   Apply d q u up fs now = Ok (d', ch) -> d' = d -> counted_modified d d' = false.
